@@ -32,7 +32,52 @@ SynthLaw(e) ==
 Synth == IsEv("synth") /\ SynthLaw(Rec[l]) /\ UNCHANGED sweep
 Fuzz == IsEv("fuzz") /\ Rec[l].outcome = "ok" /\ UNCHANGED sweep
 
-Next == Synth \/ Fuzz
+\* ---- C11: voicing follows the threshold.  f32 bit patterns of non-negative floats order like the floats.
+RECURSIVE Expand(_,_)
+Expand(dur, i) == IF i > Len(dur) THEN <<>> ELSE [k \in 1..dur[i] |-> i] \o Expand(dur, i + 1)
+VoicingLaw(e) == LET F == Expand(e.dur, 1) IN
+   /\ Len(e.nodata) = Len(F) /\ Len(e.msd_bits) = Len(e.dur)
+   /\ \A t \in 1..Len(F) : e.nodata[t] = ~(e.msd_bits[F[t]] > e.thr_bits)      \* voiced iff weight EXCEEDS the threshold
+\* along an ascending threshold sweep of one utterance, voiced frames can only turn unvoiced
+Voicing == /\ IsEv("voicing") /\ VoicingLaw(Rec[l])
+           /\ IF Rec[l].first THEN sweep' = <<Rec[l].thr_bits, Rec[l].nodata>>
+              ELSE /\ sweep # <<>> /\ Rec[l].thr_bits >= sweep[1] /\ Len(sweep[2]) = Len(Rec[l].nodata)
+                   /\ \A t \in 1..Len(sweep[2]) : sweep[2][t] => Rec[l].nodata[t]
+                   /\ sweep' = <<Rec[l].thr_bits, Rec[l].nodata>>
+\* other streams' trajectories do not move when one stream's threshold / GV weight changes (digests)
+Isolated == IsEv("isolated") /\ Rec[l].spectrum_equal /\ Rec[l].lpf_equal /\ UNCHANGED sweep
+
+\* ---- C15: additional half tone h = h8 / 8: log-F0 of every voiced frame moves by h ln2/12 (7220283 nano per eighth)
+HalfToneLaw(e) ==
+   /\ e.len_equal /\ e.dur_equal /\ e.nodata_equal /\ e.spectrum_equal /\ e.lpf_equal      \* nothing else changes
+   /\ (e.h8 = 0 => e.lf0_equal)                                                           \* h = 0 is the identity
+   /\ (~e.clamped => \A i \in 1..Len(e.diffs) : Abs(e.diffs[i] - e.h8 * 7220283) <= 3 + Abs(e.h8))
+   /\ (e.clamped => \A i \in 1..Len(e.diffs) : (e.h8 >= 0 => e.diffs[i] >= -3 /\ e.diffs[i] <= e.h8 * 7220283 + 3 + Abs(e.h8))
+                                             /\ (e.h8 <= 0 => e.diffs[i] <= 3 /\ e.diffs[i] >= e.h8 * 7220283 - 3 - Abs(e.h8)))
+HalfTone == IsEv("halftone") /\ HalfToneLaw(Rec[l]) /\ UNCHANGED sweep
+
+\* ---- C16: volume v dB = v_milli / 1000: every sample is multiplied by 10^(v/20)
+GainLaw(e) == /\ Abs(e.gain_udb - 1000 * e.v_milli) <= 20            \* measured gain in micro-dB
+              /\ e.resid_ppb <= 1000                                   \* x_v is ratio * x_0, sample by sample
+              /\ Abs(e.getv_nano) <= 100                               \* get_volume returns v up to rounding
+              /\ e.len_equal /\ e.traj_equal                           \* and nothing else changes
+Gain == IsEv("gain") /\ GainLaw(Rec[l]) /\ UNCHANGED sweep
+
+\* ---- C12: global variance.  wq = weight in quarters, ratio_ppm = 1e6 var / gv_mean over the eligible frames
+GvLaw(e) == /\ (e.eligible >= 100 => 5 * Abs(e.ratio_ppm - 250000 * e.wq) <= 250000 * e.wq)      \* within 20 %
+Gv == /\ IsEv("gv") /\ GvLaw(Rec[l])
+      /\ IF Rec[l].first THEN sweep' = <<Rec[l].wq, Rec[l].ratio_ppm>>
+         ELSE /\ sweep # <<>> /\ Rec[l].wq > sweep[1]
+              /\ (Rec[l].eligible >= 100 => Rec[l].ratio_ppm > sweep[2])                        \* grows with the weight
+              /\ sweep' = <<Rec[l].wq, Rec[l].ratio_ppm>>
+\* no eligible frame => plain ML trajectory; stream without GV unaffected by the weight
+GvNone == IsEv("gvnone") /\ Rec[l].equal_to_ml /\ UNCHANGED sweep
+GvOff == IsEv("gvoff") /\ Rec[l].unaffected /\ UNCHANGED sweep
+
+\* ---- C17: corrupted label text is reported as an error (or still synthesizes), never a panic
+Corrupt == IsEv("corrupt") /\ Rec[l].outcome \in {"ok", "err"} /\ UNCHANGED sweep
+
+Next == Corrupt \/ Synth \/ Fuzz \/ Voicing \/ Isolated \/ HalfTone \/ Gain \/ Gv \/ GvNone \/ GvOff
 Spec == Init /\ [][Next]_vars
 Accepted == IF TLCGet("stats").diameter - 1 = Len(Rec) THEN TRUE
             ELSE Print(<<"REJECT at", TLCGet("stats").diameter>>, FALSE)
